@@ -94,12 +94,10 @@ func (i UnixStamp) MarshalJSON() ([]byte, error) {
 
 // UnmarshalJSON unmarshal json
 func (i *UnixStamp) UnmarshalJSON(b []byte) error {
-	lb := len(b)
-	if lb <= 2 {
+	strBuf, ok := jsText(b)
+	if !ok {
 		return ErrInvalidInt64Js
 	}
-
-	strBuf := string(b[1 : lb-1])
 	t, err := strconv.Atoi(strBuf)
 	if err != nil {
 		return err
